@@ -87,8 +87,9 @@ class CachingLoaderMixin(ABC, _CachingLoaderProtocol):
             self.cache[cache_key] = template
             return template
 
-        if globals:
-            cached_template.globals = globals
+        # The globals of this request apply, not those of the request that
+        # populated the cache.
+        cached_template.globals = globals or {}
         return cached_template
 
     async def _check_cache_async(
@@ -110,8 +111,9 @@ class CachingLoaderMixin(ABC, _CachingLoaderProtocol):
             self.cache[cache_key] = template
             return template
 
-        if globals:
-            cached_template.globals = globals
+        # The globals of this request apply, not those of the request that
+        # populated the cache.
+        cached_template.globals = globals or {}
         return cached_template
 
     def load(
